@@ -21,11 +21,13 @@ as_dict, ==, hash."""
 from __future__ import annotations
 
 import copy
+import os
 
 import core
 
 LEVEL = "proof"
-EXTRA_TARGETS = ["model/RArgsTie.vo", "model/RArgsValTie.vo", "model/RArgsSubTie.vo", "model/RArgsInternTie.vo"]
+EXTRA_TARGETS = ["model/RArgsTie.vo", "model/RArgsValTie.vo", "model/RArgsSubTie.vo", "model/RArgsInternTie.vo",
+                 "model/RArgsRelTie.vo"]
 
 HEADER = ("From Coq Require Import List ZArith.\nImport ListNotations.\n"
           "From TI Require Import model.RArgs model.RArgsTie.\nOpen Scope nat_scope.\n")
@@ -1148,6 +1150,217 @@ def describe_intern(case, obs=None):
     return t
 
 
+# ------------------------------------------------------------------ what ==/hash/compatibility READ (model/RArgsRel.v)
+# nsexp: {"type": "nsexp", "cl": [defaults of the namespace class of R_1, R_2, ... (a chain)],
+#         "inst": [[c, export descriptor, field values], ...]}: instances of the associated class of R_c
+# (descriptor ["plain"]) or of a subclass of it overriding as_dict() (["addfirst", v] / ["addlast", v] /
+# ["rev"] / ["addrev", v]: every field stays exported under its name with its value) or get_fields() +
+# __repr__ (["other"]).  nsvirt: {"type": "nsvirt", "par": parents, "own": owns a namespace class,
+# "reg": [[base, cls], ...] (base.register(cls)), "probes": [[route, target, class of the namespace]],
+# "family": "ns" (default) / "init" (the probes pass a SET of that class as init_render_args)}.
+RHEADER = ("From Coq Require Import List ZArith.\nImport ListNotations.\n"
+           "From TI Require Import model.RArgs model.RArgsVal model.RArgsRel model.RArgsRelTie.\n")
+EXP_VALS = [["i", 0], ["i", 1], ["i", 7], ["b", 0], ["b", 1], ["f", 0], ["f", 1], ["n"], ["e"], ["s", 0], ["s", 1], ["t"]]
+EXP_KINDS = ["plain", "addfirst", "addlast", "rev", "addrev", "other"]
+EXP_ROUTES = ["RenderArgs(R, x)", "+x", "RenderArgs(R) | x", "RenderArgs(R).update(x)", "RenderArgs(parent of R).convert(R).update(x)"]
+VIRT_ROUTES = ["RenderArgs(T, ns)", "RenderArgs(T, None, ns)", "RenderArgs(T, init, ns)", "ns.to_render_args(T)", "RenderArgs(T).update(ns)"]
+VIRT_INIT_ROUTES = ["RenderArgs(T, init)", "RenderArgs(T, init, ns_T)", "init.convert(T)"]
+
+
+def gen_edesc(rng, kinds=EXP_KINDS):
+    k = rng.choice(kinds)
+    return [k, list(rng.choice(EXP_VALS))] if k in ("addfirst", "addlast", "addrev") else [k]
+
+
+def same_value_other_type(rng, v):
+    """a value that is == v (0 == False == 0.0, 1 == True == 1.0)"""
+    if v[0] in "ibf" and v[1] in (0, 1):
+        return [rng.choice("ibf"), v[1]]
+    return list(v)
+
+
+def gen_nsexp(rng):
+    ncl = rng.randint(1, 3)
+    cl = [[list(rng.choice(EXP_VALS)) for _ in range(rng.randint(1, 3))] for _ in range(ncl)]
+    inst = []
+    n = rng.randint(4, 7)
+    while len(inst) < n:
+        c = rng.randint(1, ncl)
+        base = [list(rng.choice(EXP_VALS)) if rng.random() < 0.7 else list(d) for d in cl[c - 1]]
+        # a group with == fields: the associated class first or not, then subclasses with other exports
+        group = [["plain"]] if rng.random() < 0.7 else []
+        group += [gen_edesc(rng, EXP_KINDS[1:]) for _ in range(rng.randint(1, 2))]
+        rng.shuffle(group)
+        for d in group:
+            f = [same_value_other_type(rng, v) if rng.random() < 0.4 else list(v) for v in base]
+            if rng.random() < 0.12:
+                f[rng.randrange(len(f))] = list(rng.choice(EXP_VALS))
+            inst.append([c, d, f])
+    return {"type": "nsexp", "cl": cl, "inst": inst[:7]}
+
+
+NSEXP_CORPUS = [
+    {"type": "nsexp", "cl": [[["i", 0]], [["s", 0], ["b", 0]]],
+     "inst": [[2, ["plain"], [["s", 1], ["b", 1]]], [2, ["addfirst", ["s", 1]], [["s", 1], ["b", 1]]],
+              [2, ["rev"], [["s", 1], ["i", 1]]], [2, ["addlast", ["n"]], [["s", 1], ["f", 1]]],
+              [1, ["other"], [["i", 0]]], [1, ["plain"], [["b", 0]]], [2, ["addrev", ["i", 7]], [["s", 1], ["b", 0]]]]},
+    {"type": "nsexp", "cl": [[["n"], ["i", 1], ["e"]]],
+     "inst": [[1, ["plain"], [["n"], ["i", 1], ["e"]]], [1, ["rev"], [["n"], ["i", 1], ["e"]]],
+              [1, ["addlast", ["e"]], [["n"], ["b", 1], ["e"]]], [1, ["other"], [["n"], ["f", 1], ["e"]]],
+              [1, ["addfirst", ["n"]], [["n"], ["i", 1], ["e"]]], [1, ["addrev", ["t"]], [["e"], ["i", 1], ["n"]]]]},
+]
+
+
+def py_issub(par, reg, t, c, fuel=None):
+    """issubclass(t, c) as abc.ABCMeta computes it (model/RArgsRel.v issub)"""
+    fuel = len(par) + len(reg) + 1 if fuel is None else fuel
+    if anc(par, c, t):
+        return True
+    if not fuel:
+        return False
+    return (any(b == c and py_issub(par, reg, t, k, fuel - 1) for b, k in reg)
+            or any(s and par[s] == c and py_issub(par, reg, t, s, fuel - 1) for s in range(len(par))))
+
+
+def gen_nsvirt(rng, family="ns"):
+    n = rng.randint(3, 6)
+    shape = rng.random()
+    par = [0] + [(c - 1 if shape < 0.25 else 0 if shape < 0.4 and c < 3 else rng.randrange(0, c)) for c in range(1, n)]
+    own = [False] + [rng.random() < 0.7 for _ in range(1, n)]
+    for c in rng.sample(range(1, n), 2):
+        own[c] = True
+    reg = []
+    for _ in range(rng.randint(1, 2)):
+        for _attempt in range(12):
+            b, k = rng.randrange(1, n), rng.randrange(1, n)
+            # abc refuses a registration that would make a cycle; prefer bases owning a namespace class
+            if b != k and not py_issub(par, reg, b, k) and (own[b] or rng.random() < 0.3):
+                reg.append([b, k])
+                break
+    owners = [c for c in range(1, n) if own[c]]
+    pairs = [(t, c) for t in range(1, n) for c in owners]
+    virt = [p for p in pairs if py_issub(par, reg, *p) and not anc(par, p[1], p[0])]
+    real = [p for p in pairs if anc(par, p[1], p[0])]
+    none = [p for p in pairs if not py_issub(par, reg, *p)]
+    nroutes = 3 if family == "init" else 5
+    probes = []
+    off = rng.randrange(nroutes)
+    for j, (t, c) in enumerate(virt[:3]):
+        probes += [[r, t, c] for r in range(nroutes)] if j == 0 else [[(off + j) % nroutes, t, c], [(off + j + 2) % nroutes, t, c]]
+    for grp, m in ((real, 3), (none, 2)):
+        for t, c in rng.sample(grp, min(m, len(grp))):
+            probes.append([rng.randrange(nroutes), t, c])
+    case = {"type": "nsvirt", "par": par, "own": own, "reg": reg, "probes": probes}
+    if family == "init":
+        case["family"] = "init"
+    return case
+
+
+def nsvirt_corpus(family="ns"):
+    nr = 3 if family == "init" else 5
+    out = [
+        # two unrelated classes; the documented public abc API makes one a VIRTUAL subclass of the other
+        {"par": [0, 0, 0], "own": [False, True, True], "reg": [[1, 2]],
+         "probes": [[r, 2, 1] for r in range(nr)] + [[0, 1, 2], [0, 2, 2], [nr - 1, 1, 1]]},
+        # registered with a parent: virtual subclass of the grandparent too; children of the registered class
+        {"par": [0, 0, 1, 0, 3], "own": [False, True, True, True, False], "reg": [[2, 3]],
+         "probes": [[r, 4, 2] for r in range(nr)] + [[0, 3, 1], [1, 4, 1], [2, 3, 2], [0, 4, 3], [1, 2, 3], [0, 2, 1]]},
+        # the base owns no namespace class, its parent does; a second, harmless registration (a real subclass)
+        {"par": [0, 0, 1, 0], "own": [False, True, False, True], "reg": [[2, 3], [1, 2]],
+         "probes": [[r, 3, 1] for r in range(nr)] + [[0, 1, 3], [1, 2, 3], [0, 2, 1]]},
+    ]
+    for c in out:
+        c["type"] = "nsvirt"
+        if family == "init":
+            c["family"] = "init"
+    return out
+
+
+NSVIRT_CORPUS = nsvirt_corpus()
+
+
+def edesc_term(d):
+    k = d[0]
+    if k in ("plain", "rev", "other"):
+        return {"plain": "EPlain", "rev": "EReverse", "other": "EOther"}[k]
+    return f"({ {'addfirst': 'EAddFirst', 'addlast': 'EAddLast', 'addrev': 'EAddReverse'}[k]} {val_term(d[1])})"
+
+
+def etab_term(t):
+    hm = {}
+    hs = [hm.setdefault(h, len(hm)) for h in t["hash"]]
+    return f"{{| et_eq := {bmat(t['eq'])}; et_hash := {core.coq_list(hs)}; et_find := {bmat(t['find'])} |}}"
+
+
+def nsexp_term(c, r):
+    inst = core.coq_list(c["inst"], lambda i: f"{{| x_cls := {i[0]}; x_exp := {edesc_term(i[1])}; x_f := {vl(i[2])} |}}")
+    # the driver's side conditions (the instances hold the fields given, every route's set holds the instance)
+    sane = r["fields"] == [i[2] for i in c["inst"]] and all(t["ok"] for t in r["sets"])
+    return (f"{{| ec_inst := {inst}; ec_exports := {core.coq_list(r['exports'] if sane else [], vl)}; "
+            f"ec_ns := {etab_term(r['ns'])}; ec_sets := {core.coq_list(r['sets'], etab_term)} |}}")
+
+
+def nsvirt_term(c, r):
+    def probe(p, o):
+        return (f"{{| vp_route := {p[0]}; vp_t := {p[1]}; vp_c := {p[2]}; vp_res := {o['res']}; vp_keys := {core.coq_list(o['keys'])}; "
+                f"vp_val := {b_(o['val'])}; vp_issub := {b_(o['issub'])} |}}")
+    return (f"{{| vc_init := {b_(c.get('family') == 'init')}; vc_par := {core.coq_list(c['par'])}; vc_own := {core.coq_list(c['own'], b_)}; "
+            f"vc_reg := {core.coq_list(c['reg'], lambda p: f'({p[0]}, {p[1]})')}; "
+            f"vc_probes := {core.coq_list(list(zip(c['probes'], r['probes'])), lambda po: probe(*po))}; "
+            f"vc_keys0 := {core.coq_list(r['keys0'], core.coq_list)}; vc_unchanged := {b_(r['unchanged'])} |}}")
+
+
+def shrink_rel(case):
+    """candidates: every pair of instances / every single probe"""
+    if case["type"] == "nsexp":
+        n = len(case["inst"])
+        return [{**case, "inst": [case["inst"][i], case["inst"][j]]} for i in range(n) for j in range(i + 1, n)]
+    return [{**case, "probes": [p]} for p in case["probes"]]
+
+
+def describe_rel(case, obs=None):
+    if case["type"] == "nsexp":
+        def cls(i):
+            c, d, f = i
+            base = f"R{c}.Args"
+            if d[0] == "plain":
+                return base
+            body = {"addfirst": "as_dict(): {{'extra': {0}, **super().as_dict()}}", "addlast": "as_dict(): {{**super().as_dict(), 'extra': {0}}}",
+                    "rev": "as_dict(): entries of super().as_dict() reversed", "addrev": "as_dict(): {{'extra': {0}, **reversed entries}}",
+                    "other": "get_fields(): reversed mapping; __repr__ overridden"}[d[0]].format(pyval(d[1]) if len(d) > 1 else "")
+            return f"[subclass of {base} overriding {body}]"
+        t = ("chain Renderable <- " + " <- ".join(f"R{c}(Args defaults {[pyval(v) for v in d]})" for c, d in enumerate(case["cl"], 1))
+             + "; instances: " + "; ".join(f"x{k} = {cls(i)}({', '.join(pyval(v) for v in i[2])})" for k, i in enumerate(case["inst"])))
+        if obs:
+            def bad(tab, what):
+                out = []
+                n = len(case["inst"])
+                for i in range(n):
+                    for j in range(n):
+                        if i < j and tab["eq"][i][j] and tab["hash"][i] != tab["hash"][j]:
+                            out.append(f"{what.format(i)} == {what.format(j)} but their hashes differ"
+                                       + ("" if tab["find"][i][j] else " (a dict keyed by one misses the other)"))
+                return out
+            notes = bad(obs["ns"], "x{}")
+            for rn, tab in zip(EXP_ROUTES, obs["sets"]):
+                notes += bad(tab, rn.replace("x", "x{}").replace("R", "R_c"))
+            t += ".  Observed: " + ("; ".join(notes[:4]) if notes else f"== tables {obs['ns']['eq']}")
+        return t
+    fam = case.get("family") == "init"
+    t = (f"render classes C1..C{len(case['par']) - 1} with parents {case['par'][1:]} (0 = Renderable), namespace owners "
+         f"{[c for c, o in enumerate(case['own']) if o]}; " + "; ".join(f"C{b}.register(C{k})" for b, k in case["reg"]) + "; ")
+    names = VIRT_INIT_ROUTES if fam else VIRT_ROUTES
+    parts = []
+    for k, p in enumerate(case["probes"]):
+        what = (names[p[0]].replace("T", f"C{p[1]}") + (f" with init = RenderArgs(C{p[2]}, C{p[2]}.Args(7))" if fam else f" with ns = C{p[2]}.Args(7)"))
+        if obs:
+            o = obs["probes"][k]
+            what += (f" -> issubclass(C{p[1]}, C{p[2]}) = {o['issub']}, C{p[2]} in C{p[1]}.__mro__ = {anc(case['par'], p[2], p[1])}; "
+                     + (f"ACCEPTED, the set holds namespaces for classes {o['keys']}" if o["res"] == 0 else f"rejected (error code {o['res'] - 1})"))
+        parts.append(what)
+    return t + " | ".join(parts)
+
+
 def evaluate(cases, tag="c16", want_diag=False):
     """Returns (codes, errors, impl results, diag strings)."""
     impl = core.run_impl_parallel("impl_c16.py", cases)
@@ -1168,6 +1381,13 @@ def evaluate(cases, tag="c16", want_diag=False):
         for i, l in diags.items():
             # the case's code: that of its first position contradicting the rule, else 1
             codes[i] = next((code for _, code in l if code >= 2), 1)
+    for ty, suffix, term, ctype, expr in (("nsexp", "e", nsexp_term, "ecase", "ebad cases"), ("nsvirt", "v", nsvirt_term, "vcase", "vbad cases")):
+        rel = [(i, term(c, r)) for i, (c, r) in enumerate(zip(cases, impl)) if c["type"] == ty]
+        if rel:
+            bad, errs = core.coq_shards(tag + suffix, RHEADER, [t for _, t in rel], ctype, expr, shard=40)
+            errors += errs
+            for idx, code in bad:
+                codes[rel[idx][0]] = code
     if subs:
         bad, errs = core.coq_shards(tag + "u", SHEADER, [t for _, t in subs], "scase", "sbad cases", shard=16)
         errors += errs
@@ -1532,6 +1752,8 @@ def describe_ns(case):
 def describe(case):
     if case["type"] == "intern":
         return describe_intern(case)
+    if case["type"] in ("nsexp", "nsvirt"):
+        return describe_rel(case)
     if case["type"] == "nssub":
         return describe_sub(case)
     if case["type"] == "nsprog":
@@ -1593,6 +1815,16 @@ def run(ctx):
         srng = random.Random(nrng.getrandbits(64) ^ 0x5B)
         cases += [gen_nssub(srng, 10 if i % 4 else 4) for i in range(120 if ctx.quick else 3000)]
         cases += intern_cases(ctx.quick, random.Random(srng.getrandbits(64) ^ 0x1D))
+        # its own stream again: what ==/hash/compatibility read (overridden exports, virtual subclassing)
+        rrng = random.Random(srng.getrandbits(64) ^ 0x2E)
+        ncorpus_rel = len(NSEXP_CORPUS) + len(NSVIRT_CORPUS)
+        cases += list(NSEXP_CORPUS) + list(NSVIRT_CORPUS)
+        cases += [gen_nsexp(rrng) for _ in range(20 if ctx.quick else 400)]
+        cases += [gen_nsvirt(rrng) for _ in range(16 if ctx.quick else 300)]
+        if os.environ.get("VERIF_C16_INIT_FAMILY") == "1":
+            # NOT part of the registered check: the initial-set argument with virtual subclassing (see
+            # pending_fixes/C16_virtual_subclass_init_render_args.*)
+            cases += nsvirt_corpus("init") + [gen_nsvirt(rrng, "init") for _ in range(16 if ctx.quick else 300)]
     codes, errors, impl, diags = evaluate(cases, want_diag=True)
     hist = {"case_types": {}, "classes": {}, "ops_len": {}, "op_kinds": {}, "op_outcomes": {},
             "results_aliasing_an_existing_object": 0, "results_new_object": 0,
@@ -1621,11 +1853,16 @@ def run(ctx):
                        "same_object(0,1)/(0,2)/(1,2)": {}},
             "nssub": {"subclass_kinds": {}, "op_kinds": {}, "op_outcomes": {}, "ops_len": {},
                       "constructed_by_kind": {}, "copying_route_by_kind_of_operand_class": {},
-                      "copies_made_by_update_by_kind": {}, "copies_of_copies": 0}}
+                      "copies_made_by_update_by_kind": {}, "copies_of_copies": 0},
+            "exports": {"cases": 0, "instances_by_class_kind": {}, "equal_pairs_of_instances_of_different_classes": 0,
+                        "equal_pairs_with_different_as_dict_values": 0, "equal_set_pairs_over_all_routes": 0},
+            "virtual": {"cases": 0, "family": {}, "registrations": {}, "probes_by_route": {},
+                        "probes_by_relation(inheritance/registration only/none)": {}, "probe_outcomes": {}}}
     distinct = set()
     ndistinct = set()
     sdistinct = set()
     idistinct = set()
+    rdistinct = set()
 
     def bump(d, k):
         d[k] = d.get(k, 0) + 1
@@ -1778,6 +2015,35 @@ def run(ctx):
                 # non-trivial: both requests built an object of their own (the window between allocation and publication)
                 if o["res"][0] is not None and o["res"][1] is not None and not o["same"][0]:
                     idistinct.add(core.sig({**c, "k": o["k"]}))
+        elif c["type"] == "nsexp":
+            eh = hist["exports"]
+            eh["cases"] += 1
+            for i in c["inst"]:
+                bump(eh["instances_by_class_kind"], i[1][0])
+            n = len(c["inst"])
+            mixed = [(i, j) for i in range(n) for j in range(i + 1, n) if r["ns"]["eq"][i][j] and c["inst"][i][1] != c["inst"][j][1]]
+            eh["equal_pairs_of_instances_of_different_classes"] += len(mixed)
+            differ = sum(1 for i, j in mixed if r["exports"][i] != r["exports"][j])
+            eh["equal_pairs_with_different_as_dict_values"] += differ
+            eh["equal_set_pairs_over_all_routes"] += sum(1 for t in r["sets"] for i in range(n) for j in range(i + 1, n) if t["eq"][i][j])
+            # non-trivial: two EQUAL instances whose classes export different values
+            if differ:
+                rdistinct.add(core.sig(c))
+        elif c["type"] == "nsvirt":
+            vh = hist["virtual"]
+            vh["cases"] += 1
+            bump(vh["family"], c.get("family", "ns"))
+            bump(vh["registrations"], len(c["reg"]))
+            nv = 0
+            for pr, o in zip(c["probes"], r["probes"]):
+                bump(vh["probes_by_route"], (VIRT_INIT_ROUTES if c.get("family") == "init" else VIRT_ROUTES)[pr[0]])
+                rel = "inheritance" if anc(c["par"], pr[2], pr[1]) else "registration only" if o["issub"] else "none"
+                nv += rel == "registration only"
+                bump(vh["probes_by_relation(inheritance/registration only/none)"], rel)
+                bump(vh["probe_outcomes"], f"{rel}: " + ("accepted" if o["res"] == 0 else f"err{o['res'] - 1}"))
+            # non-trivial: some probe's classes are related by registration only
+            if nv:
+                rdistinct.add(core.sig(c))
         elif c["type"] == "stmt":
             bump(hist["stmt_outcomes"], r["code"])
         elif c["type"] == "ctor":
@@ -1804,6 +2070,23 @@ def run(ctx):
                              "what": "interleaved requests for the shared default set of one class: a returned set is not the "
                                      "complete default set (icheck code %d; %d position(s) of this scenario contradict the rule): %s"
                                      % (codes2[0], sum(1 for _, cd in diags[i] if cd >= 2), describe_intern(small, obs)),
+                             "replay": {"case": small, "observed": impl2[0], "code": codes2[0]}})
+            continue
+        if code >= 2 and c["type"] in ("nsexp", "nsvirt"):
+            small = c
+            cands = shrink_rel(c)
+            if cands and not ctx.replay:
+                ccodes = evaluate(cands, tag="c16s")[0]
+                small = next((cc for cc, cd in zip(cands, ccodes) if cd >= 2), c)
+            codes2, _, impl2, _ = evaluate([small], tag="c16r")
+            what = ("equal namespaces / equal sets of render arguments must hash equal and be interchangeable as keys WHATEVER documented "
+                    "public method (as_dict / get_fields / __repr__) the class of an instance overrides: == and hash read the associated class "
+                    "and the field values only" if c["type"] == "nsexp" else
+                    "a namespace / initial set is compatible with a render class iff it is associated with that class or one of its ANCESTORS "
+                    "BY INHERITANCE (abc registration makes issubclass() true but adds no ancestor), and every set for a class holds one "
+                    "namespace per owning class of its hierarchy")
+            what += f" (check code {codes2[0]}): {describe_rel(small, impl2[0])}"
+            failures.append({"signature": core.sig(canon(small)), "what": what,
                              "replay": {"case": small, "observed": impl2[0], "code": codes2[0]}})
             continue
         if code >= 2:
@@ -1841,7 +2124,7 @@ def run(ctx):
                      "RArgsIntern.run code_proto (small-step interning protocol) and RArgsInternTie.ispec == two real interleaved "
                      "first-time requests for the default set of a class, one parked at every line event",
         "evaluations": len(cases),
-        "distinct_nontrivial": len(distinct) + len(ndistinct) + len(sdistinct) + len(idistinct),
+        "distinct_nontrivial": len(distinct) + len(ndistinct) + len(sdistinct) + len(idistinct) + len(rdistinct),
         "rule": "corpus + generated programs: forest of 2-8 render classes (depth <= 4, branching <= 3, chains / bushy / random), "
                 "45-85% of classes with an Args namespace of 1-3 int fields and, in 60% of the forests with an inner class, a forced "
                 "GAP pattern A(args) <- B(no Args of its own) [<- C(args)]; 0-3 SUBCLASSES of every namespace class (child, "
@@ -1881,7 +2164,8 @@ def run(ctx):
         "extra": {"failing_cases_total": nfail, "nonzero_cases_total": len(order),
                   "distinct_nontrivial_set_programs": len(distinct), "distinct_nontrivial_namespace_programs": len(ndistinct),
                   "distinct_nontrivial_subclass_constructor_programs": len(sdistinct),
-                  "distinct_nontrivial_interleaved_request_positions": len(idistinct)},
+                  "distinct_nontrivial_interleaved_request_positions": len(idistinct),
+                  "distinct_nontrivial_export_and_virtual_subclass_cases": len(rdistinct)},
         "mismatches": mismatches,
         "failures": failures,
         "errors": errors,
